@@ -252,8 +252,10 @@ def request_for(route, tstr, mode, v, var_default=None, has_var_default=False, n
         if mode == "omitted":
             return text, {}
         return text, {"v": None if mode == "null" else GS.to_json_var(v)}
-    # nested: `nested` = (literal text with $n inside, var type string, var value)
+    # nested / single: `nested` = (literal text, possibly with $n inside, var type string or None, var value)
     lit_text, vt, vv = nested
+    if vt is None:
+        return "{ probe(arg: %s) @probe(arg: %s) }" % (lit_text, lit_text), {}
     return "query($n: %s) { probe(arg: %s) @probe(arg: %s) }" % (vt, lit_text, lit_text), {"n": GS.to_json_var(vv)}
 
 
@@ -273,6 +275,24 @@ def nested_literal(draw, spec, t, v):
         parts = ["%s: %s" % (k, "$n" if k == key else GS.lit(x)) for k, x in v.items()]
         return "{" + ", ".join(parts) + "}", f["type"], v[key]
     return None
+
+
+def single_literal(draw, spec, t, v):
+    """a list position given ONE item that is not wrapped in [...] (coerced to a list of one), optionally with a variable
+    inside an object item -> (text, vartype or None, value) or None"""
+    t0 = GS.nullable(t)
+    if t0[0] != "list" or not isinstance(v, list) or not v:
+        return None
+    item, it = v[0], GS.nullable(t0[1])
+    if item is None or isinstance(item, list) or it[0] == "list":
+        return None
+    if isinstance(item, dict) and "__enum__" not in item and item and it[1] not in GS.BUILTIN_SCALARS and spec.kind(it[1]) == "input" \
+            and draw(st.booleans()):
+        key = draw(st.sampled_from(sorted(item)))
+        f = [x for x in spec["types"][it[1]]["fields"] if x["name"] == key][0]
+        if item[key] is not None or GS.parse_t(f["type"])[0] != "nn":
+            return "{" + ", ".join("%s: %s" % (k, "$n" if k == key else GS.lit(x)) for k, x in item.items()) + "}", f["type"], item[key]
+    return GS.lit(item), None, None
 
 
 def expected(spec_p, t, tstr, default, has_default, route, mode, v, var_default, has_var_default):
@@ -320,8 +340,8 @@ def run_case(case, ctx=None):
     seen = {}
     for route, mode in case["routes"]:
         nested = None
-        if route == "nested":
-            nested = case.get("nested")
+        if route in ("nested", "single"):
+            nested = case.get(route)
             if not nested:
                 continue
         text, variables = request_for(route, tstr, mode, v, case.get("var_default"), case.get("has_var_default", False), nested)
@@ -351,8 +371,8 @@ def run_case(case, ctx=None):
                     vios.append(("C07/non-conforming-directive-argument/%s" % _conf_class(p), "%s ; %s" % (p, tag)))
         # (2)/(3) acceptance / rejection
         eff_cls = cls if mode == "provided" else "natural"
-        if route == "nested":
-            exp = ("unspecified", "nested")
+        if route in ("nested", "single"):
+            exp = ("unspecified", route)
             if cls == "natural":
                 # the reference executor's coercion handles variables anywhere
                 try:
@@ -374,7 +394,7 @@ def run_case(case, ctx=None):
             elif RX.canon(got) != RX.canon(want):
                 vios.append(("C07/wrong-argument-value/%s" % _diff_class(spec_p, t, got.get("py_arg", "<absent>"), want.get("py_arg", "<absent>")),
                              "received=%r expected=%r ; %s" % (got, want, tag)))
-            if called and isinstance(record["dir"], dict) and route != "nested":
+            if called and isinstance(record["dir"], dict) and route not in ("nested", "single"):
                 wd = exp[1]
                 if RX.canon(record["dir"]) != RX.canon(wd):
                     vios.append(("C07/wrong-directive-argument-value/%s" % _diff_class(spec_p, t, record["dir"].get("arg", "<absent>"), wd.get("arg", "<absent>")),
@@ -678,10 +698,14 @@ def cases(draw):
         # a nullable variable may feed a non-null argument when either side has a default
         routes.append(("variable-nullable", draw(st.sampled_from(["provided", "omitted", "null"]))))
     nested = None
+    single = None
     if kind == "natural" and classify(spec, t, v) == "natural":
         nested = nested_literal(draw, spec, t, v)
         if nested:
             routes.append(("nested", "provided"))
+        single = single_literal(draw, spec, t, v)
+        if single:
+            routes.append(("single", "provided"))
     # the same field declared by two implementations of one interface with their own argument definitions
     has_default2 = draw(st.integers(0, 2)) != 0
     default2 = None
@@ -692,7 +716,8 @@ def cases(draw):
     impl = {"has_default2": has_default2, "default2": default2, "extra": draw(st.booleans()),
             "order": draw(st.lists(st.integers(0, 1), min_size=2, max_size=4))}
     return {"spec": spec, "type": tstr, "has_default": has_default, "default": default, "value": v, "kind": kind,
-            "has_var_default": has_var_default, "var_default": var_default, "routes": routes, "nested": nested, "impl": impl}
+            "has_var_default": has_var_default, "var_default": var_default, "routes": routes, "nested": nested, "single": single,
+            "impl": impl}
 
 
 def named_is(spec, t, n):
